@@ -7,13 +7,12 @@ import (
 
 	libp2pcrypto "github.com/libp2p/go-libp2p/core/crypto"
 
-	rt "github.com/anyproto/any-sync/internal/verifrt"
 	"github.com/anyproto/any-sync/util/crypto"
 )
 
-// Symbolic-crypto fakes (Dolev-Yao style): a key is its id; Verify is an
-// uninterpreted function of (key id, data, signature); ciphertexts are opaque
-// wrappers that only the matching key id unwraps.
+// Symbolic-crypto fakes (Dolev-Yao style): a key is its id; a signature is
+// valid iff it is the signer's output for exactly that data; ciphertexts are
+// opaque wrappers that only the matching key id unwraps.
 
 type vPub struct{ id string }
 
@@ -25,8 +24,9 @@ func (k *vPub) Raw() ([]byte, error) { return []byte(k.id), nil }
 func (k *vPub) Encrypt(msg []byte) ([]byte, error) {
 	return append([]byte("E("+k.id+")"), msg...), nil
 }
+// a signature verifies iff it is exactly what the matching private key produces for the data
 func (k *vPub) Verify(data []byte, sig []byte) (bool, error) {
-	return rt.UFBool("verify", k.id, data, sig), nil
+	return string(sig) == "S("+k.id+")"+string(data), nil
 }
 func (k *vPub) Marshall() ([]byte, error)              { return []byte(k.id), nil }
 func (k *vPub) Storage() []byte                        { return []byte(k.id) }
